@@ -26,6 +26,7 @@ import (
 	"github.com/pion/sdp/v3"
 	"github.com/pion/srtp/v3"
 	"github.com/pion/webrtc/v4/internal/util"
+	"github.com/pion/webrtc/v4/internal/verifhook"
 	"github.com/pion/webrtc/v4/pkg/rtcerr"
 )
 
@@ -540,6 +541,7 @@ func (pc *PeerConnection) OnConnectionStateChange(f func(PeerConnectionState)) {
 }
 
 func (pc *PeerConnection) onConnectionStateChange(cs PeerConnectionState) {
+	verifhook.Yield("pc.connstate", pc, int(cs))
 	pc.connectionState.Store(cs)
 	pc.log.Infof("peer connection state changed: %s", cs)
 	if handler, ok := pc.onConnectionStateChangeHandler.Load().(func(PeerConnectionState)); ok && handler != nil {
@@ -2589,6 +2591,7 @@ func (pc *PeerConnection) close(shouldGracefullyClose bool) error { //nolint:cyc
 	pc.mu.Unlock()
 
 	// https://www.w3.org/TR/webrtc/#dom-rtcpeerconnection-close (step #5)
+	verifhook.Yield("pc.close.beforeChannels", pc, 0)
 	pc.sctpTransport.lock.Lock()
 	for _, d := range pc.sctpTransport.dataChannels {
 		d.setReadyState(DataChannelStateClosed)
